@@ -34,6 +34,12 @@ open Jap.ClassPath
 theorem C14_tables_pinned :
     Jap.Gen.subclassSpecKeys = ["__path__", "class_path", "dict_kwargs", "init_args"]
     ∧ Jap.Gen.nestedArgRoots = [".", "class_path", "dict_kwargs", "dict_kwargs.", "init_args"]
+    -- `_get_instantiators` starts from the parser's own dict and only ADDS the parent's, then the context's, entries
+    -- whose key is not there yet (`getInstantiators`)
+    ∧ Jap.Gen.getInstantiatorsSteps
+        = ["instantiators = self._instantiators or {}",
+           "instantiators.update({k: v for k, v in parent_instantiators.items() if k not in instantiators})",
+           "instantiators.update({k: v for k, v in context_instantiators.items() if k not in instantiators})"]
     -- `coerceScalar` accepts exactly the (declared, given) pairs the live adapter accepts, with the same result kind
     ∧ (["int", "float", "bool", "str"].all fun d => ["int", "float", "bool", "str"].all fun g =>
         (match coerceScalar d (.lit g "1") with
@@ -181,12 +187,12 @@ theorem C14_discard_none (rec : String → Option Val → Val → Except Err Val
 theorem C14_checked_final (E : ClassEnv) (fuel : Nat) (cp : String) (ia dk : KV) (s : Val)
     (h : finalize E (fuel + 1) (.spec (some cp) ia dk) = .ok s) :
     ∃ ia', s = .spec (some cp) ia' dk ∧ ia'.map (·.1) = (paramsOf E cp).map (·.name) := by
-  simp only [finalize] at h
+  simp only [finalize, finalizeWith] at h
   split at h
   · cases h
   · rename_i ia' hf
     cases h
-    exact ⟨ia', rfl, finalizeArgs_keys _ ia _ ia' hf⟩
+    exact ⟨ia', rfl, finalizeArgs_keys _ _ ia _ ia' hf⟩
 
 /-! ## everything else is rejected -/
 
@@ -268,8 +274,9 @@ theorem C14_rejects_ill_typed_init_arg (E : ClassEnv) (fuel : Nat) (base : Strin
 theorem C14_rejects_missing_required (E : ClassEnv) (fuel : Nat) (cp : String) (ia dk : KV) (p : IParam)
     (hp : p ∈ paramsOf E cp) (hreq : p.dflt = none) (hmiss : getKV p.name ia = none) :
     ∃ err, finalize E (fuel + 1) (.spec (some cp) ia dk) = .error err := by
-  obtain ⟨err, he⟩ := finalizeArgs_missing (finalize E fuel) ia (paramsOf E cp) ⟨p, hp, hreq, hmiss⟩
-  exact ⟨err, by simp [finalize, he]⟩
+  obtain ⟨err, he⟩ := finalizeArgs_missing (finalizeWith E fuel) [] ia (paramsOf E cp)
+    ⟨p, hp, hreq, hmiss, by simp [fallbackValue, getKV]⟩
+  exact ⟨err, by simp [finalize, finalizeWith, he]⟩
 
 /-- init_args without class_path (or a bare dict, or a dotted sub-option) for an ABSTRACT declared type with nothing
     given before: there is no class to take them -/
@@ -509,6 +516,23 @@ theorem C14_built_container_item (cp : String) (ia dk : KV) (rest : List Val) (l
   simp only [instList]
   rw [b1]
   simp [inst]
+
+/-! ## which instantiator builds the object -/
+
+/-- the instantiators a (sub)parser registered itself come BEFORE the ones it inherits: when one of its own matches the
+    class, the object is built by the first matching own one, whatever the parent parser or the context registered -/
+theorem C14_instantiator_own_first (E : ClassEnv) (own parent ctx : List Instantiator) (cls : String) (i : Instantiator)
+    (h : own.find? (instMatches E cls) = some i) :
+    pickInstantiator E (getInstantiators own parent ctx) cls = i.tag := by
+  simp [pickInstantiator, getInstantiators, List.find?_append, h]
+
+/-- … and an inherited one is used only when none of the own ones matches: then the first matching one of the parent
+    (among those whose key the parser does not have itself) -/
+theorem C14_instantiator_parent_next (E : ClassEnv) (own parent ctx : List Instantiator) (cls : String) (i : Instantiator)
+    (h0 : own.find? (instMatches E cls) = none)
+    (h : (parent.filter (fun k => !(own.any (sameKey k)))).find? (instMatches E cls) = some i) :
+    pickInstantiator E (getInstantiators own parent ctx) cls = i.tag := by
+  simp only [pickInstantiator, getInstantiators, List.find?_append, h0, Option.none_or, h, Option.some_or]
 
 /-! ## short notations -/
 
